@@ -82,6 +82,7 @@ PROPERTIES = {
             ('C11-R3', c11.rule_limit_handover, 'quick'),
             ('C11-R4', c11.rule_budget_clamp, 'quick'),
             ('C11-R5', c11.rule_budget_continuity, 'quick'),
+            ('C11-R6', c11.rule_expansion_unavoidable, 'quick'),
             ('C08-R4', clists.rule_translate_compile_siblings, 'quick'),  # budget arithmetic of translate and compile_pattern must agree
         ],
     },
